@@ -9,3 +9,24 @@ package types
 //@   trusted
 //@   modifies nothing
 //@   ensures result == (c == Pending || c == Candidate || c == Proven)
+
+// emptyBytesHash = crypto.Keccak256(nil), set once at package initialisation
+//@ constglobal emptyBytesHash len 32 content hb(keccak(emptyB()))
+
+// ---- bridge exit leaf (C03): the Agglayer-side hash of an exit; its last piece is the 32-byte metadata hash
+// carried by the exit (or keccak of the empty string when the exit carries none)
+//@ spec fn exitLeafValue(leafType int, originNetwork int, originAddress Addr, destinationNetwork int, destinationAddress Addr, amount int, metadataPiece Bytes) Hash = keccak(cat7(bytes1(leafType), beNB(originNetwork, 4), bytesOf(ab(originAddress), 20), beNB(destinationNetwork, 4), bytesOf(ab(destinationAddress), 20), beNB(amount, 32), metadataPiece))
+
+//@ func (b *BridgeExit) Hash
+//@   props C03 C10
+//@   requires b != nil && b.TokenInfo != nil && b.Amount != nil
+//@   requires 0 <= bigval(b.Amount) && bigval(b.Amount) < 115792089237316195423570985008687907853269984665640564039457584007913129639936
+//@   modifies b.Amount
+//@   ensures[exit-leaf] result == exitLeafValue(b.LeafType, b.TokenInfo.OriginNetwork, b.TokenInfo.OriginTokenAddress, b.DestinationNetwork, b.DestinationAddress, bigval(b.Amount), ite(len(b.Metadata) == 0, bytesOf(hb(keccak(emptyB())), 32), bytesOf(seq(b.Metadata), len(b.Metadata))))
+//@   ensures[unchanged] b.Amount == old(b.Amount)
+
+// the exit built from a bridge event hashes to the deposit leaf of that event (getLeafValue of the bridge contract)
+//@ lemma leafAgreement(leafType int, originNetwork int, originAddress Addr, destinationNetwork int, destinationAddress Addr, amount int, md []byte, n int)
+//@   props C03
+//@   requires n >= 0
+//@   ensures[same-leaf] leafValue(leafType, originNetwork, originAddress, destinationNetwork, destinationAddress, amount, bytesOf(md, n)) == exitLeafValue(leafType, originNetwork, originAddress, destinationNetwork, destinationAddress, amount, ite(n == 0, bytesOf(hb(keccak(emptyB())), 32), bytesOf(hb(keccak(catB(emptyB(), bytesOf(md, n)))), 32)))
